@@ -27,6 +27,12 @@ def run(ctx):
     ctx.token_audit()
     if ok:
         ctx.axiom_audit("RootSim.Props.C04", THEOREMS)
+    # node level: the message-counting core (colour flip, per-destination sent counts, reduce-scatter, receive polling)
+    ok2, _ = ctx.lean_build(["RootSim.Props.C04Node"])
+    if ok2:
+        ctx.axiom_audit("RootSim.Props.C04Node", ["RootSim.C04.Node.counting_received", "RootSim.C04.Node.counting_sent",
+                                                  "RootSim.C04.Node.no_premature_pass", "RootSim.C04.Node.old_colour_drained",
+                                                  "RootSim.C04.Node.counters_reset", "RootSim.C04.Node.passed_zero"])
         if ctx.tier == "thorough":
             ctx.leanchecker("RootSim.Props.C04")
     if not C08.build_hc08(ctx):
